@@ -83,6 +83,15 @@ fn sampled(rng: &mut Rng) -> Scenario {
                 };
                 sc.actions.push((k, a));
             }
+            if m != Meth::BDF && rng.bool(0.15) {
+                // the solver's own dense output off; the callback asks for interpolants from some
+                // abscissa on (ControlFlag::XOut) - those handed out must be valid too
+                sc.low_dense = false;
+                let k = rng.int(0, ncb.saturating_sub(1));
+                if !sc.actions.iter().any(|(kk, _)| *kk == k) {
+                    sc.actions.push((k, Action::XOut(sc.x0 + (sc.xend - sc.x0) * rng.f())));
+                }
+            }
             sc.actions.sort_by_key(|a| a.0);
             if rng.bool(0.15) {
                 sc.max_steps = Some(rng.int(1, ncb + 1));
